@@ -22,6 +22,9 @@ struct Cfg {
     store_mass_matrix: bool,
     grad_based: bool,
     dim: usize,
+    /// covariance I + 2*11^T instead of a diagonal one (the low-rank estimator then keeps
+    /// eigenvalues and the eigen-statistics carry values)
+    correlated: bool,
 }
 
 fn tweaks(c: &Cfg) -> Tweaks {
@@ -41,6 +44,16 @@ fn tweaks(c: &Cfg) -> Tweaks {
     t.mclmc_length = Some(1.0);
     t.dynamic_step_size = Some(false);
     t
+}
+
+fn target_of(c: &Cfg) -> Target {
+    if c.correlated && c.dim >= 2 {
+        let d = c.dim;
+        let w = 2.0 / (1.0 + 2.0 * d as f64);
+        let prec: Vec<f64> = (0..d * d).map(|i| if i / d == i % d { 1.0 - w } else { -w }).collect();
+        return Target::DenseNormal { mu: (0..d).map(|i| 0.2 * i as f64).collect(), prec };
+    }
+    target(c.dim)
 }
 
 fn target(dim: usize) -> Target {
@@ -68,12 +81,12 @@ fn check_history(c: &Cfg, faults: &[(u64, FaultKind)], p: &mut Partial, tag: &st
     let n = 12usize;
     let start: Vec<f64> = (0..c.dim).map(|i| 0.15 + 0.37 * i as f64).collect();
     let (schema, res) = with_settings!(c.preset, &t, |s| {
-        let schema = schema_of(&s, Dens::new(target(c.dim)));
-        let res = run_chain(&s, Dens::with_faults(target(c.dim), faults.to_vec()), 3, &start, n);
+        let schema = schema_of(&s, Dens::new(target_of(c)));
+        let res = run_chain(&s, Dens::with_faults(target_of(c), faults.to_vec()), 3, &start, n);
         (schema, res)
     });
     p.evaluations += 1;
-    let key = format!("{:?}/flags{}/mm{}/gb{}/dim{}/{tag}", c.preset, c.flags, c.store_mass_matrix, c.grad_based, c.dim);
+    let key = format!("{:?}/flags{}/mm{}/gb{}/dim{}{}/{tag}", c.preset, c.flags, c.store_mass_matrix, c.grad_based, c.dim, if c.correlated { "corr" } else { "" });
     let replay = json!({"config": format!("{c:?}"), "faults": format!("{faults:?}")});
     if !matches!(res.end, RunEnd::Completed) {
         p.count(&format!("history_not_completed:{:?}:{}", c.preset, format!("{:?}", res.end).chars().take(60).collect::<String>()), 1);
@@ -108,6 +121,13 @@ fn check_history(c: &Cfg, faults: &[(u64, FaultKind)], p: &mut Partial, tag: &st
                 Some(v) => {
                     e.0 += 1;
                     let (variant, len, scalar) = value_shape(v);
+                    if name == "mass_matrix_eigvals" {
+                        if let nuts_rs::Value::F64(x) = v {
+                            if x.iter().any(|e| e.is_finite()) {
+                                p.count("draws_reporting_retained_eigenvalues", 1);
+                            }
+                        }
+                    }
                     let ty = types[name];
                     if variant != item_name(ty) {
                         viol("value-type", format!("draw {d}: {name} is {variant}, declared {}", item_name(ty)), p);
@@ -215,7 +235,10 @@ pub fn run(tier: Tier, _replay: Option<String>) -> i32 {
                         continue;
                     }
                     for &dim in &dims {
-                        cfgs.push(Cfg { preset, flags, store_mass_matrix: mm, grad_based: gb, dim });
+                        cfgs.push(Cfg { preset, flags, store_mass_matrix: mm, grad_based: gb, dim, correlated: false });
+                        if dim >= 2 && matches!(preset, Preset::LowRankNuts | Preset::LowRankMclmc) {
+                            cfgs.push(Cfg { preset, flags, store_mass_matrix: mm, grad_based: gb, dim, correlated: true });
+                        }
                     }
                 }
             }
